@@ -306,4 +306,39 @@ theorem encode_err (rt : RT) (encode : Bool) (o : RetObj) (buf : List UInt8) (e 
     · simp only [hsmall, if_false]
       exact ⟨buf, by simp [plainEncode, hconv], rfl⟩
 
+theorem foldl_rules_mono (rules : List (List String × Nat)) (name : String) (a b : Nat) (h : a ≤ b) :
+    rules.foldl (fun acc rule => if rule.1.contains name then max acc rule.2 else acc) a
+      ≤ rules.foldl (fun acc rule => if rule.1.contains name then max acc rule.2 else acc) b := by
+  induction rules generalizing a b with
+  | nil => exact h
+  | cons r rs ih =>
+    simp only [List.foldl_cons]
+    apply ih
+    split
+    · simp only [Nat.max_def]; split <;> split <;> omega
+    · exact h
+
+theorem foldl_rules_ge (rules : List (List String × Nat)) (name : String) (a : Nat) :
+    a ≤ rules.foldl (fun acc rule => if rule.1.contains name then max acc rule.2 else acc) a := by
+  induction rules generalizing a with
+  | nil => exact Nat.le_refl _
+  | cons r rs ih =>
+    simp only [List.foldl_cons]
+    refine Nat.le_trans ?_ (ih _)
+    split
+    · exact Nat.le_max_left _ _
+    · exact Nat.le_refl _
+
+theorem sizeOfA_mono (nargs : Nat) (r : ResT) : sizeOfA 0 r ≤ sizeOfA nargs r := by
+  have hb : bufferSize 0 ≤ bufferSize nargs := by
+    simp only [bufferSize]; omega
+  cases r with
+  | void => exact hb
+  | prim name size => exact foldl_rules_mono _ _ _ _ hb
+  | aggregate sz =>
+    simp only [sizeOfA]
+    split
+    · split <;> split <;> omega
+    · exact hb
+
 end CffiVerif.Callback
